@@ -187,7 +187,21 @@ class PassAnalysis:
                 classes = self.mn_classes.get(nm, set())
                 if len(classes) == 1:
                     st.fact(self.item)['isa'].add(next(iter(classes)))
-        consumed = self.sizes.size(self.item, st)
+            elif not names:
+                # a rule that admits several mnemonics (`i.name in (..)`): the item is of the class they share, if they share one
+                for f, _, _ in self.lifted(key, preds):
+                    if f[0] == 'or' and f[1] and all(x[0] == 'cmp' and x[1] == '==' and x[2] == ('NAME',) and x[3][0] == 'const' for x in f[1]):
+                        classes = set()
+                        for x in f[1]:
+                            classes |= self.mn_classes.get(x[3][1], set())
+                        if len(classes) == 1:
+                            st.fact(self.item)['isa'].add(next(iter(classes)))
+        try:
+            consumed = self.sizes.size(self.item, st)
+        except AnalysisError as e:
+            # size() of the consumed item is not understood: the byte accounting of this path has no verdict (deferred by the
+            # conservation rule); everything else that is read off the path (what is built, which rule matched) is unaffected
+            consumed = LinS({('opaque', 'size(): ' + str(e)[:100]): 1})
         appended = LinS()
         app_values = []
         foreign = []
@@ -196,13 +210,19 @@ class PassAnalysis:
                 if meth == 'extend' and val is not None and val[0] in ('list', 'tuple') and not any(e[0] == 'star' for e in val[1]):
                     # extend([a, b]) / += [a, b]: the elements written out, appended in order
                     for e in val[1]:
-                        appended = appended + self.sizes.size(e, st)
+                        try:
+                            appended = appended + self.sizes.size(e, st)
+                        except AnalysisError as e2:
+                            appended = appended + LinS({('opaque', 'size(): ' + str(e2)[:100]): 1})
                         app_values.append((e, node))
                     continue
                 if meth == 'extend':
                     appended = appended + LinS({('size-of-list', val): 1})
                 else:
-                    appended = appended + self.sizes.size(val, st)
+                    try:
+                        appended = appended + self.sizes.size(val, st)
+                    except AnalysisError as e:
+                        appended = appended + LinS({('opaque', 'size(): ' + str(e)[:100]): 1})
                 app_values.append((val, node))
             else:
                 foreign.append((recv, val, node))
@@ -260,6 +280,11 @@ def opaque_atoms(facts, lin):
         if k == 'const':
             return
         if k == 'attr' and len(t) == 3:
+            if isinstance(t[1], tuple) and t[1] and t[1][0] == 'new':
+                # a field of a freshly built helper object that is not one of its constructor arguments (computed in __init__):
+                # what it holds is not followed
+                out.append(t)
+                return
             walk(t[1])
             return
         if k == 'call' and len(t) == 4 and t[1] == 'len' and len(t[2]) == 1:
@@ -388,6 +413,57 @@ def contains_value(v, x):
     if v == x:
         return True
     return isinstance(v, tuple) and any(contains_value(y, x) for y in v if isinstance(y, tuple))
+
+
+MUTABLE_MAKERS = ('bytearray', 'list', 'dict', 'set', 'collections.deque', 'deque', 'io.BytesIO', 'BytesIO')
+
+
+def check_shared_buffers(report, facts, pa, rule):
+    """An item that is emitted must own its payload: a mutable buffer created once, before the item loop, refilled in every
+    iteration and handed *as is* to the item built in that iteration is shared by all of them - each earlier item ends up with the
+    bytes (and the length) of the last one."""
+    if isinstance(pa, ast.FunctionDef):
+        # a bare function: every top-level loop of it (used where no pass analysis is needed or possible)
+        class _P:
+            pass
+        for lp in [st for st in pa.body if isinstance(st, ast.For)]:
+            q = _P()
+            q.loop_fn, q.loop, q.result, q.fname = pa, lp, returned_list(pa), pa.name
+            check_shared_buffers(report, facts, q, rule)
+        return
+    fn, loop = pa.loop_fn, pa.loop
+    pre = {}
+    for st in fn.body:
+        if st is loop:
+            break
+        if isinstance(st, ast.Assign) and len(st.targets) == 1 and isinstance(st.targets[0], ast.Name):
+            v = st.value
+            fresh = isinstance(v, (ast.List, ast.Dict, ast.Set)) or (isinstance(v, ast.Call) and dotted(v.func) in MUTABLE_MAKERS)
+            if fresh:
+                pre[st.targets[0].id] = st
+            else:
+                pre.pop(st.targets[0].id, None)
+    rebound = {n.id for n in ast.walk(loop) if isinstance(n, ast.Name) and isinstance(n.ctx, ast.Store)}
+    result = pa.result
+    n_checked = 0
+    for name, st in sorted(pre.items()):
+        if name in rebound or name == result:
+            continue
+        refilled = any(isinstance(n, ast.Call) and isinstance(n.func, ast.Attribute) and isinstance(n.func.value, ast.Name) and n.func.value.id == name
+                       and n.func.attr in ('clear', 'extend', 'append', 'insert', 'pop', 'remove', 'update', 'add', 'write', 'truncate', 'seek')
+                       for n in ast.walk(loop)) or any(isinstance(n, (ast.AugAssign,)) and isinstance(n.target, ast.Name) and n.target.id == name for n in ast.walk(loop))
+        if not refilled:
+            continue
+        n_checked += 1
+        for n in ast.walk(loop):
+            if isinstance(n, ast.Call) and isinstance(n.func, ast.Name) and n.func.id in facts.classes and facts.is_subclass(n.func.id, 'Item'):
+                args = list(n.args) + [k.value for k in n.keywords]
+                if any(isinstance(a, ast.Name) and a.id == name for a in args):
+                    report.fail(Finding(rule, pa.fname, n,
+                                        'the {} built here is handed the buffer `{}` itself, which is created once before the loop (line {}) and refilled for every item: all '
+                                        'items built from it share one object, so each earlier directive ends up with the bytes of the last one'.format(n.func.id, name, st.lineno),
+                                        line=n.lineno), instance='{}: emitted items own their payload'.format(pa.fname))
+    report.ok(rule, '{}: emitted items own their payload'.format(pa.fname), nontrivial=False)
 
 
 def IS_havoc(t):
